@@ -1,7 +1,10 @@
 //! C04 — nested spans always form one consistent trace tree.
 //! Drives the REAL span machinery on a private runtime
-//! (`Runtime::new().with_emitter(recording).with_filter(scripted).with_ctxt(ThreadLocalCtxt::new()).with_rng(scripted)`):
-//!   * `#[emit::span(rt: *RT, "node", id)]` on a sync fn and on an async fn (two static call sites, driven
+//! (`Runtime::new().with_emitter(recording).with_filter(scripted).with_ctxt(W(ThreadLocalCtxt::new())).with_rng(scripted)`
+//! for the ctxt wrappers W = none, `AssertInternal`, `&`, `Box`, `Arc`, `Option`, `Box<dyn ErasedCtxt>`, `Arc<dyn ErasedCtxt>`,
+//! `Arc<dyn ErasedCtxt>` over `AssertInternal`; plus the fully erased runtime of an `AmbientSlot` initialised through
+//! `emit::setup()`; the case line names the variant; every call site is generic over the runtime):
+//!   * `#[emit::span(rt: *rt, "node", id)]` on a sync fn and on an async fn (two static call sites, driven
 //!     recursively by the tree), `emit::new_span!` + `Frame::call` / `Frame::in_future`, and `SpanGuard::new` directly
 //!     (with extra user ctxt props) + `Frame::call` / `Frame::in_future`;
 //!   * events through `emit::emit!`, observations through `SpanCtxt::current`;
@@ -40,23 +43,93 @@ pub fn streams() -> Vec<Stream> {
 
 type EmitFn = fn(emit::Event<&dyn ErasedProps>);
 type FilterFn = fn(emit::Event<&dyn ErasedProps>) -> bool;
-type Rt = emit::runtime::Runtime<emit::emitter::FromFn<EmitFn>, emit::filter::FromFn<FilterFn>, ThreadLocalCtxt, emit::Empty, ScriptRng>;
+/// The component types of one runtime variant (they differ in the ctxt WRAPPER around the same `ThreadLocalCtxt`;
+/// the ambient-slot variant also erases everything else).
+pub trait Parts: 'static {
+    type E: emit::Emitter + Send + Sync + 'static;
+    type F: emit::Filter + Send + Sync + 'static;
+    type Fr: Send + 'static;
+    type C: Ctxt<Frame = Self::Fr> + Send + Sync + 'static;
+    type K: emit::Clock + Send + Sync + 'static;
+    type G: emit::Rng + Send + Sync + 'static;
+    fn rt() -> &'static RtOf<Self>;
+}
 
-static RT: LazyLock<Rt> = LazyLock::new(|| {
-    emit::runtime::Runtime::new()
-        .with_emitter(emit::emitter::from_fn(record as EmitFn))
-        .with_filter(emit::filter::from_fn(verdict as FilterFn))
-        .with_ctxt(ThreadLocalCtxt::new())
-        .with_rng(ScriptRng)
-});
+type RtOf<P> = emit::runtime::Runtime<<P as Parts>::E, <P as Parts>::F, <P as Parts>::C, <P as Parts>::K, <P as Parts>::G>;
+
+type TlcFrame = emit::platform::thread_local_ctxt::ThreadLocalCtxtFrame;
+type DynCtxt = dyn emit::ctxt::ErasedCtxt + Send + Sync;
+type DynFrame = <DynCtxt as Ctxt>::Frame;
+
+/// a typed private runtime `Runtime::new().with_emitter(recording).with_filter(scripted).with_ctxt($ctor).with_rng(scripted)`
+macro_rules! typed_variant {
+    ($marker:ident, $ctxt:ty, $frame:ty, $ctor:expr) => {
+        pub struct $marker;
+        impl Parts for $marker {
+            type E = emit::emitter::FromFn<EmitFn>;
+            type F = emit::filter::FromFn<FilterFn>;
+            type Fr = $frame;
+            type C = $ctxt;
+            type K = emit::Empty;
+            type G = ScriptRng;
+            fn rt() -> &'static RtOf<Self> {
+                static RT: LazyLock<RtOf<$marker>> = LazyLock::new(|| {
+                    emit::runtime::Runtime::new()
+                        .with_emitter(emit::emitter::from_fn(record as EmitFn))
+                        .with_filter(emit::filter::from_fn(verdict as FilterFn))
+                        .with_ctxt($ctor)
+                        .with_rng(ScriptRng)
+                });
+                LazyLock::force(&RT)
+            }
+        }
+    };
+}
+
+fn leak<T>(v: T) -> &'static T {
+    Box::leak(Box::new(v))
+}
+
+typed_variant!(VConcrete, ThreadLocalCtxt, TlcFrame, ThreadLocalCtxt::new());
+typed_variant!(VAssert, emit::runtime::AssertInternal<ThreadLocalCtxt>, TlcFrame, emit::runtime::AssertInternal(ThreadLocalCtxt::new()));
+typed_variant!(VRef, &'static ThreadLocalCtxt, TlcFrame, leak(ThreadLocalCtxt::new()));
+typed_variant!(VBox, Box<ThreadLocalCtxt>, TlcFrame, Box::new(ThreadLocalCtxt::new()));
+typed_variant!(VArc, Arc<ThreadLocalCtxt>, TlcFrame, Arc::new(ThreadLocalCtxt::new()));
+typed_variant!(VOption, Option<ThreadLocalCtxt>, Option<TlcFrame>, Some(ThreadLocalCtxt::new()));
+typed_variant!(VBoxDyn, Box<DynCtxt>, DynFrame, Box::new(ThreadLocalCtxt::new()) as Box<DynCtxt>);
+typed_variant!(VArcDyn, Arc<DynCtxt>, DynFrame, Arc::new(ThreadLocalCtxt::new()) as Arc<DynCtxt>);
+typed_variant!(VAssertDyn, Arc<DynCtxt>, DynFrame, Arc::new(emit::runtime::AssertInternal(ThreadLocalCtxt::new())) as Arc<DynCtxt>);
+
+/// the type-erased runtime of an ambient slot: `emit::setup()…init_slot(&SLOT)`, then `SLOT.get()`
+pub struct VSlot;
+impl Parts for VSlot {
+    type E = emit::runtime::AmbientEmitter<'static>;
+    type F = emit::runtime::AmbientFilter<'static>;
+    type Fr = DynFrame;
+    type C = emit::runtime::AmbientCtxt<'static>;
+    type K = emit::runtime::AmbientClock<'static>;
+    type G = emit::runtime::AmbientRng<'static>;
+    fn rt() -> &'static RtOf<Self> {
+        static SLOT: emit::runtime::AmbientSlot = emit::runtime::AmbientSlot::new();
+        static INIT: std::sync::Once = std::sync::Once::new();
+        INIT.call_once(|| {
+            let _ = emit::setup()
+                .emit_to(emit::emitter::from_fn(record as EmitFn))
+                .emit_when(emit::filter::from_fn(verdict as FilterFn))
+                .with_ctxt(ThreadLocalCtxt::new())
+                .with_clock(emit::Empty)
+                .with_rng(ScriptRng)
+                .init_slot(&SLOT);
+        });
+        SLOT.get()
+    }
+}
+
+pub const VARIANTS: [&str; 10] = ["concrete", "assert", "ref", "box", "arc", "option", "boxdyn", "arcdyn", "assertdyn", "slot"];
 
 static LOG: Mutex<Vec<String>> = Mutex::new(Vec::new());
 static DISABLED: LazyLock<Mutex<HashSet<u64>>> = LazyLock::new(|| Mutex::new(HashSet::new()));
 static RNG_SCRIPT: Mutex<(Option<u128>, Option<u64>)> = Mutex::new((None, None));
-
-fn rt() -> &'static Rt {
-    LazyLock::force(&RT)
-}
 
 pub struct ScriptRng;
 
@@ -347,18 +420,21 @@ fn collect_verdicts(ts: &[T], out: &mut std::collections::HashMap<u64, bool>) ->
 
 // ------------------------------------------------------------------ the static call sites
 
-#[emit::span(rt: *RT, "node", id)]
-fn span_sync(id: u64, children: &Arc<Vec<T>>, actors: &Arc<Actors>) {
-    run_sync_list(children, actors)
+#[emit::span(rt: *rt, "node", id)]
+fn span_sync<P: Parts>(rt: &'static RtOf<P>, id: u64, children: &Arc<Vec<T>>, actors: &Arc<Actors>) {
+    run_sync_list::<P>(children, actors)
 }
 
-#[emit::span(rt: *RT, "node", id)]
-async fn span_async(id: u64, children: Arc<Vec<T>>, actors: Arc<Actors>) {
-    run_async_list(children, actors).await
+#[emit::span(rt: *rt, "node", id)]
+async fn span_async<P: Parts>(rt: &'static RtOf<P>, id: u64, children: Arc<Vec<T>>, actors: Arc<Actors>) {
+    run_async_list::<P>(children, actors).await
 }
 
-fn span_direct(id: u64, user: &PropList) -> (SpanGuard<'static, &'static emit::Empty, emit::Empty, emit::span::completion::Default<'static, &'static emit::emitter::FromFn<EmitFn>, &'static ThreadLocalCtxt>>, Frame<&'static ThreadLocalCtxt>) {
-    let rt = rt();
+fn span_direct<P: Parts>(
+    id: u64,
+    user: &PropList,
+) -> (SpanGuard<'static, &'static P::K, emit::Empty, emit::span::completion::Default<'static, &'static P::E, &'static P::C>>, Frame<&'static P::C>) {
+    let rt = P::rt();
     let user = DynProps::of(user);
     SpanGuard::new(
         rt.filter(),
@@ -377,40 +453,41 @@ fn set_rng(rt: Option<u128>, rs: Option<u64>) {
     *RNG_SCRIPT.lock().unwrap() = (rt, rs);
 }
 
-fn run_sync_list(ts: &Arc<Vec<T>>, actors: &Arc<Actors>) {
+fn run_sync_list<P: Parts>(ts: &Arc<Vec<T>>, actors: &Arc<Actors>) {
     for t in ts.iter() {
-        run_sync(t, actors);
+        run_sync::<P>(t, actors);
     }
 }
 
-fn run_sync(t: &T, actors: &Arc<Actors>) {
+fn run_sync<P: Parts>(t: &T, actors: &Arc<Actors>) {
+    let rt = P::rt();
     match t {
         T::Event { eid, own } => {
             let own = DynProps::of(own);
-            emit::emit!(rt: *RT, props: own, "evt", eid);
+            emit::emit!(rt: *rt, props: own, "evt", eid);
         }
         T::Cur(cid) => {
-            let c = SpanCtxt::current(rt().ctxt());
+            let c = SpanCtxt::current(rt.ctxt());
             let line = show_ids("c", Some(*cid), c.trace_id().copied(), c.span_parent().copied(), c.span_id().copied());
             LOG.lock().unwrap().push(line);
         }
         T::Span { id, kind, rt: r_t, rs, user, children, .. } => {
             set_rng(*r_t, *rs);
             match kind {
-                SKind::Sync => span_sync(*id, children, actors),
+                SKind::Sync => span_sync::<P>(rt, *id, children, actors),
                 SKind::NewSpan => {
                     let id = *id;
-                    let (mut guard, frame) = emit::new_span!(rt: *RT, "node", id);
+                    let (mut guard, frame) = emit::new_span!(rt: *rt, "node", id);
                     frame.call(move || {
                         guard.start();
-                        run_sync_list(children, actors);
+                        run_sync_list::<P>(children, actors);
                     });
                 }
                 SKind::Direct => {
-                    let (mut guard, frame) = span_direct(*id, user);
+                    let (mut guard, frame) = span_direct::<P>(*id, user);
                     frame.call(move || {
                         guard.start();
-                        run_sync_list(children, actors);
+                        run_sync_list::<P>(children, actors);
                     });
                 }
                 _ => unreachable!("validated at parse time"),
@@ -418,11 +495,11 @@ fn run_sync(t: &T, actors: &Arc<Actors>) {
         }
         T::Hop(th, children) => {
             let (children, actors2) = (children.clone(), actors.clone());
-            let f = Frame::current(rt().ctxt()).in_fn(move || run_sync_list(&children, &actors2));
+            let f = Frame::current(rt.ctxt()).in_fn(move || run_sync_list::<P>(&children, &actors2));
             actors.hop(*th, Box::new(f));
         }
         T::Exec(threads, children) => {
-            let fut: BoxFut = Box::pin(Frame::current(rt().ctxt()).in_future(run_async_list(children.clone(), actors.clone())));
+            let fut: BoxFut = Box::pin(Frame::current(rt.ctxt()).in_future(run_async_list::<P>(children.clone(), actors.clone())));
             let slot: Arc<Mutex<Option<BoxFut>>> = Arc::new(Mutex::new(Some(fut)));
             for k in 0..100_000usize {
                 let slot2 = slot.clone();
@@ -443,20 +520,21 @@ fn run_sync(t: &T, actors: &Arc<Actors>) {
         }
         T::Panic => panic!("scripted panic"),
         T::Catch(children) => {
-            let _ = std::panic::catch_unwind(std::panic::AssertUnwindSafe(|| run_sync_list(children, actors)));
+            let _ = std::panic::catch_unwind(std::panic::AssertUnwindSafe(|| run_sync_list::<P>(children, actors)));
         }
         T::Yield | T::Par(..) => unreachable!("validated at parse time"),
     }
 }
 
-fn run_async_list(ts: Arc<Vec<T>>, actors: Arc<Actors>) -> BoxFut {
+fn run_async_list<P: Parts>(ts: Arc<Vec<T>>, actors: Arc<Actors>) -> BoxFut {
+    let rt = P::rt();
     Box::pin(async move {
         for t in ts.iter() {
             match t {
                 T::Yield => YieldOnce(false).await,
                 T::Par(branches, sched) => {
                     Join {
-                        branches: branches.iter().map(|b| Some(run_async_list(b.clone(), actors.clone()))).collect(),
+                        branches: branches.iter().map(|b| Some(run_async_list::<P>(b.clone(), actors.clone()))).collect(),
                         sched: sched.iter().copied().collect(),
                         rr: 0,
                     }
@@ -465,11 +543,11 @@ fn run_async_list(ts: Arc<Vec<T>>, actors: Arc<Actors>) -> BoxFut {
                 T::Span { id, kind, rt: r_t, rs, user, children, .. } if kind.is_async() => {
                     set_rng(*r_t, *rs);
                     match kind {
-                        SKind::Async => span_async(*id, children.clone(), actors.clone()).await,
+                        SKind::Async => span_async::<P>(rt, *id, children.clone(), actors.clone()).await,
                         SKind::ANewSpan => {
                             let id = *id;
-                            let (mut guard, frame) = emit::new_span!(rt: *RT, "node", id);
-                            let body = run_async_list(children.clone(), actors.clone());
+                            let (mut guard, frame) = emit::new_span!(rt: *rt, "node", id);
+                            let body = run_async_list::<P>(children.clone(), actors.clone());
                             frame
                                 .in_future(async move {
                                     guard.start();
@@ -479,8 +557,8 @@ fn run_async_list(ts: Arc<Vec<T>>, actors: Arc<Actors>) -> BoxFut {
                                 .await
                         }
                         _ => {
-                            let (mut guard, frame) = span_direct(*id, user);
-                            let body = run_async_list(children.clone(), actors.clone());
+                            let (mut guard, frame) = span_direct::<P>(*id, user);
+                            let body = run_async_list::<P>(children.clone(), actors.clone());
                             frame
                                 .in_future(async move {
                                     guard.start();
@@ -491,7 +569,7 @@ fn run_async_list(ts: Arc<Vec<T>>, actors: Arc<Actors>) -> BoxFut {
                         }
                     }
                 }
-                other => run_sync(other, &actors),
+                other => run_sync::<P>(other, &actors),
             }
         }
     })
@@ -537,53 +615,75 @@ fn run_c04(line: &str) -> String {
     (|| -> Option<String> {
         let s = Sexp::parse(line)?;
         let (tag, args) = s.as_tagged()?;
-        if tag != "c04" || args.len() != 2 {
+        if tag != "c04" {
             return None;
         }
+        // (c04 VARIANT (incoming ..) (T..)); the two-argument form is the concrete variant
+        let (variant, args) = match args.len() {
+            2 => ("concrete", args),
+            3 => (args[0].as_atom()?, &args[1..]),
+            _ => return None,
+        };
         let incoming = parse_props(&args[0], "incoming")?;
         let tree = parse_list(args[1].as_list()?, false)?;
-        let mut verdicts = std::collections::HashMap::new();
-        if !collect_verdicts(&tree, &mut verdicts) {
-            return None;
-        }
-        *DISABLED.lock().unwrap() = verdicts.into_iter().filter(|(_, en)| !en).map(|(id, _)| id).collect::<HashSet<u64>>();
-        LOG.lock().unwrap().clear();
-        let fails: Arc<Mutex<Vec<String>>> = Arc::new(Mutex::new(Vec::new()));
-        let fails2 = fails.clone();
-        let ok = Actors::run_case(
-            NTHREADS,
-            move |actors| {
-                Box::new(move || {
-                    let incoming = DynProps::of(&incoming);
-                    Frame::push(rt().ctxt(), &incoming).call(|| run_sync_list(&tree, &actors));
-                })
-            },
-            |t| {
-                let fails = fails2.clone();
-                Box::new(move || {
-                    let mut n = 0;
-                    rt().ctxt().with_current(|cur| {
-                        let _ = cur.for_each(|_, _| {
-                            n += 1;
-                            ControlFlow::Continue(())
-                        });
-                    });
-                    if n != 0 {
-                        fails.lock().unwrap().push(format!("trace-left(thread={},n={})", t, n));
-                    }
-                })
-            },
-        );
-        let mut recs = std::mem::take(&mut *LOG.lock().unwrap());
-        recs.sort();
-        let mut out = recs.join(";");
-        if !ok {
-            out.push_str(";panic");
-        }
-        let fails = fails.lock().unwrap();
-        Some(if fails.is_empty() { out } else { format!("{}\tFAIL:{}", out, fails.join("|")) })
+        Some(match variant {
+            "concrete" => run_variant::<VConcrete>(incoming, tree)?,
+            "assert" => run_variant::<VAssert>(incoming, tree)?,
+            "ref" => run_variant::<VRef>(incoming, tree)?,
+            "box" => run_variant::<VBox>(incoming, tree)?,
+            "arc" => run_variant::<VArc>(incoming, tree)?,
+            "option" => run_variant::<VOption>(incoming, tree)?,
+            "boxdyn" => run_variant::<VBoxDyn>(incoming, tree)?,
+            "arcdyn" => run_variant::<VArcDyn>(incoming, tree)?,
+            "assertdyn" => run_variant::<VAssertDyn>(incoming, tree)?,
+            "slot" => run_variant::<VSlot>(incoming, tree)?,
+            _ => return None,
+        })
     })()
     .unwrap_or_else(|| "bad-case".into())
+}
+
+fn run_variant<P: Parts>(incoming: PropList, tree: Arc<Vec<T>>) -> Option<String> {
+    let mut verdicts = std::collections::HashMap::new();
+    if !collect_verdicts(&tree, &mut verdicts) {
+        return None;
+    }
+    *DISABLED.lock().unwrap() = verdicts.into_iter().filter(|(_, en)| !en).map(|(id, _)| id).collect::<HashSet<u64>>();
+    LOG.lock().unwrap().clear();
+    let fails: Arc<Mutex<Vec<String>>> = Arc::new(Mutex::new(Vec::new()));
+    let fails2 = fails.clone();
+    let ok = Actors::run_case(
+        NTHREADS,
+        move |actors| {
+            Box::new(move || {
+                let incoming = DynProps::of(&incoming);
+                Frame::push(P::rt().ctxt(), &incoming).call(|| run_sync_list::<P>(&tree, &actors));
+            })
+        },
+        |t| {
+            let fails = fails2.clone();
+            Box::new(move || {
+                let mut n = 0;
+                P::rt().ctxt().with_current(|cur| {
+                    let _ = cur.for_each(|_, _| {
+                        n += 1;
+                        ControlFlow::Continue(())
+                    });
+                });
+                if n != 0 {
+                    fails.lock().unwrap().push(format!("trace-left(thread={},n={})", t, n));
+                }
+            })
+        },
+    );
+    let mut recs = std::mem::take(&mut *LOG.lock().unwrap());
+    recs.sort();
+    let mut out = recs.join(";");
+    if !ok {
+        out.push_str(";panic");
+    }
+    let fails = fails.lock().unwrap();
+    Some(if fails.is_empty() { out } else { format!("{}\tFAIL:{}", out, fails.join("|")) })
 }
 
 // ------------------------------------------------------------------ generator
@@ -787,7 +887,8 @@ fn gen_c04(rng: &mut Rng, tier: Tier, n: usize) -> Vec<String> {
                 break;
             }
         }
-        out.push(Sexp::tagged("c04", vec![incoming, Sexp::list(items)]).to_string());
+        let variant = if rng.chance(1, 4) { "concrete" } else { *rng.pick(&VARIANTS) };
+        out.push(Sexp::tagged("c04", vec![Sexp::atom(variant), incoming, Sexp::list(items)]).to_string());
     }
     out
 }
